@@ -91,8 +91,17 @@ fn failing_unlinks_exec(k: &usize, ctx: &crate::explore::WorkerCtx) -> crate::ex
 
 /// Every source of process identifiers on one node: spawned processes and the reply-to identifiers of remote calls (read off
 /// the wire), interleaved; all pairwise distinct, all with the node's creation, references likewise.
-fn identifier_sources_exec(started: &bool, ctx: &crate::explore::WorkerCtx) -> crate::explore::ExecResult {
-    let started = *started;
+fn identifier_sources_exec(case: &(bool, Option<u32>, bool), ctx: &crate::explore::WorkerCtx) -> crate::explore::ExecResult {
+    let (started, epmd_creation, early_use) = *case;
+    crate::world::set_epmd_creation(epmd_creation);
+    crate::world::set_pre_start_use(early_use);
+    let out = identifier_sources_inner(started, epmd_creation, ctx);
+    crate::world::set_epmd_creation(None);
+    crate::world::set_pre_start_use(false);
+    out
+}
+
+fn identifier_sources_inner(started: bool, epmd_creation: Option<u32>, ctx: &crate::explore::WorkerCtx) -> crate::explore::ExecResult {
     crate::c17::run_rt(async move {
         let mut res = crate::explore::ExecResult::default();
         if !started {
@@ -162,7 +171,11 @@ fn identifier_sources_exec(started: &bool, ctx: &crate::explore::WorkerCtx) -> c
             for f in frames.iter().skip(seen_frames) {
                 if let Ok(m) = vcore::proto::read_pass_through(f) {
                     if let (vcore::refval::RefVal::Tuple(c), Some(vcore::refval::RefVal::Tuple(p))) = (&m.control, &m.payload) {
-                        if c.len() == 4 && c[0] == vcore::refval::RefVal::int(6) { if let vcore::refval::RefVal::Pid { id, serial, creation, .. } = &p[0] { pids.push((format!("rpc reply-to in round {}", round), *id, *serial, *creation)); } }
+                        if c.len() == 4 && c[0] == vcore::refval::RefVal::int(6) {
+                            if let vcore::refval::RefVal::Pid { id, serial, creation, .. } = &p[0] { pids.push((format!("rpc reply-to in round {}", round), *id, *serial, *creation)); }
+                            // the sender named in the control tuple is that very identifier
+                            if !vcore::refval::exact_eq(&c[1], &p[0]) { res.violations.push(("a remote call names one identifier as its sender and another as its reply-to".into(), json!({"round": round, "control_sender": c[1].short(), "reply_to": p[0].short()}))); }
+                        }
                     }
                 }
             }
@@ -171,6 +184,7 @@ fn identifier_sources_exec(started: &bool, ctx: &crate::explore::WorkerCtx) -> c
             nw.w.settle(&mut nw.peer, &no_probe).await;
         }
         let cr = nw.node.creation();
+        if let Some(want) = epmd_creation { if cr != want { res.violations.push(("the node does not carry the creation EPMD assigned".into(), json!({"assigned": want, "node_creation": cr}))); } }
         let mut keys: Vec<(u32, u32, u32)> = pids.iter().map(|p| (p.1, p.2, p.3)).collect();
         keys.sort();
         let dup = keys.windows(2).any(|w| w[0] == w[1]);
@@ -185,7 +199,8 @@ fn identifier_sources_exec(started: &bool, ctx: &crate::explore::WorkerCtx) -> c
 }
 
 pub fn run(rep: &Report) -> Value {
-    let src = [true, false];
+    // (node started?, creation EPMD assigns, identifiers made before start)
+    let src = [(true, None, false), (false, None, false), (true, Some(2), false), (true, Some(0x1_0001), false), (true, Some(u32::MAX), false), (true, Some(0x1_0001), true), (true, None, true)];
     let st_src = crate::explore::for_all(rep, "all sources of process identifiers", &src, |k, ctx| identifier_sources_exec(k, ctx));
     let ks: Vec<usize> = (0..=6).collect();
     let st_u = crate::explore::for_all(rep, "references around failing unlinks", &ks, |k, ctx| failing_unlinks_exec(k, ctx));
